@@ -77,6 +77,33 @@ def check_width(chk, rule, prog, eff, cache, H, PA, CS, families=None):
 
 
 
+def check_int_makers(chk, rule, prog, eff):
+    Tt = prog.enum("cbor_type")
+    IWd = prog.enum("cbor_int_width")
+    nim = 0
+    for kind_, tname in (("uint", "CBOR_TYPE_UINT"), ("negint", "CBOR_TYPE_NEGINT")):
+        for bits_ in (8, 16, 32, 64):
+            fn_ = "cbor_build_%s%d" % (kind_, bits_)
+            if fn_ not in prog.funcs:
+                continue
+            g_ = prog.funcs[fn_]
+            for k_, r_ in enumerate(tables.result_states(prog, eff, fn_)):
+                d_ = r_["desc"]
+                if d_ is None:
+                    continue
+                nim += 1
+                pay = (d_.get("payload") or {})
+                val = pay.get("i%d" % bits_)
+                ok_ = d_["type"] == ("c", Tt[tname]) and d_["meta0"] == ("c", IWd["CBOR_INT_%d" % bits_]) and val == ("arg", 0) and \
+                    set(pay) == {"i%d" % bits_}
+                chk.ob(rule, "%s path %d: a %d-bit %s holding the parameter" % (fn_, k_, bits_, kind_), ok_, "%s:%d" % (g_.file, g_.line),
+                       fn=fn_, key="intmaker:%s:%d" % (fn_, k_),
+                       detail="" if ok_ else "type %s, width %s, payload %s" % (DR.fmt_term(d_["type"]) if d_["type"] else None,
+                                                                              DR.fmt_term(d_["meta0"]) if d_["meta0"] else None,
+                                                                              {a: DR.fmt_term(b) for a, b in pay.items()}))
+    chk.floor(rule, "integer builder results", nim, 8)
+
+
 def run(ctx, chk):
     prog = ctx.prog()
     eff = ctx.effects(prog)
@@ -328,32 +355,7 @@ def run(ctx, chk):
     chk.rule("C03.int-makers", "cbor_build_uintN / cbor_build_negintN return an integer item of type UINT / NEGINT whose width is N and "
                                "whose N-bit payload is the parameter itself (a builder that stores fewer bytes than the width it marks "
                                "leaves the rest to the allocator, and the serializer emits them)")
-    Tt = prog.enum("cbor_type")
-    IWd = prog.enum("cbor_int_width")
-    nim = 0
-    for kind_, tname in (("uint", "CBOR_TYPE_UINT"), ("negint", "CBOR_TYPE_NEGINT")):
-        for bits_ in (8, 16, 32, 64):
-            fn_ = "cbor_build_%s%d" % (kind_, bits_)
-            if fn_ not in prog.funcs:
-                continue
-            g_ = prog.funcs[fn_]
-            for k_, r_ in enumerate(tables.result_states(prog, eff, fn_)):
-                d_ = r_["desc"]
-                if d_ is None:
-                    continue
-                nim += 1
-                pay = (d_.get("payload") or {})
-                val = pay.get("i%d" % bits_)
-                while isinstance(val, tuple) and val[0] == "cast" and val[1] in ("zext", "sext", "trunc") and False:
-                    val = val[3]
-                ok_ = d_["type"] == ("c", Tt[tname]) and d_["meta0"] == ("c", IWd["CBOR_INT_%d" % bits_]) and val == ("arg", 0) and \
-                    set(pay) == {"i%d" % bits_}
-                chk.ob("C03.int-makers", "%s path %d: a %d-bit %s holding the parameter" % (fn_, k_, bits_, kind_), ok_, "%s:%d" % (g_.file, g_.line),
-                       fn=fn_, key="intmaker:%s:%d" % (fn_, k_),
-                       detail="" if ok_ else "type %s, width %s, payload %s" % (DR.fmt_term(d_["type"]) if d_["type"] else None,
-                                                                              DR.fmt_term(d_["meta0"]) if d_["meta0"] else None,
-                                                                              {a: DR.fmt_term(b) for a, b in pay.items()}))
-    chk.floor("C03.int-makers", "integer builder results", nim, 8)
+    check_int_makers(chk, "C03.int-makers", prog, eff)
     # ---- payload bytes are written by a byte-exact primitive
     chk.rule("C03.payload-copy", "the only external routines that receive the output buffer are memcpy / memmove: a payload is emitted "
                                  "byte for byte, whatever it contains (a string routine stops at the first NUL)")
